@@ -46,6 +46,8 @@ func (c rpCmd) text() string {
 }
 func (c rpCmd) body() string {
 	switch c.shape {
+	case 'i': // as written in the spokfile; text() is what must be reported: the interpolated command
+		return "echo mk-" + c.marker
 	case 'o':
 		return "echo " + c.marker
 	case 'e':
@@ -58,7 +60,17 @@ func (c rpCmd) body() string {
 		return fmt.Sprintf("echo %s; echo %s >&2", c.marker, c.marker)
 	}
 }
+// source: the command as written in the spokfile (shape i refers to the variable MK with blanks inside the delimiters)
+func (c rpCmd) source() string {
+	if c.shape == 'i' {
+		return "echo " + c.marker + " >>\"$T\"; echo {{ .MK }}-" + c.marker
+	}
+	return c.text()
+}
 func (c rpCmd) out() string {
+	if c.shape == 'i' {
+		return "mk-" + c.marker + "\n"
+	}
 	if c.shape == 'o' || c.shape == 'x' || c.shape == 'b' {
 		return c.marker + "\n"
 	}
@@ -123,6 +135,7 @@ type rpStats struct {
 	Statuses       map[string]int `json:"failing_status_buckets"`
 	SkippedSeen    int            `json:"task_results_skipped"`
 	TracedCommands int            `json:"task_executions_seen_in_trace"`
+	ToFiles        int            `json:"invocations_with_stdout_and_stderr_in_regular_files"`
 	Samples        []string       `json:"samples"`
 	OracleFail     map[string]int `json:"oracle_failures"`
 }
@@ -199,7 +212,7 @@ func reportCmd(args []string) error {
 			nc := r.Intn(5)
 			for j := 0; j < nc; j++ {
 				marker++
-				c := rpCmd{shape: "ooeobxk"[r.Intn(7)], marker: fmt.Sprintf("m%d", marker)}
+				c := rpCmd{shape: "ooeobxki"[r.Intn(8)], marker: fmt.Sprintf("m%d", marker)}
 				if c.shape == 'x' || c.shape == 'k' {
 					c.status = []int{1, 2, 3, 7, 42, 127, 128, 255, 1 + r.Intn(255)}[r.Intn(9)]
 					if r.Intn(3) == 0 { // most commands succeed
@@ -267,6 +280,7 @@ func reportCmd(args []string) error {
 		proj := filepath.Join(home, "proj")
 		os.MkdirAll(proj, 0o755)
 		var src strings.Builder
+		src.WriteString("MK := \"mk\"\n")
 		for _, v := range vars {
 			fmt.Fprintf(&src, "%s := %q\n", rpVarNames[v.n], v.val)
 		}
@@ -283,7 +297,7 @@ func reportCmd(args []string) error {
 			}
 			fmt.Fprintf(&src, "task %s(%s) {\n", rpNames[t.name], strings.Join(as, ", "))
 			for _, c := range t.cmds {
-				fmt.Fprintf(&src, "    %s\n", c.text())
+				fmt.Fprintf(&src, "    %s\n", c.source())
 			}
 			fmt.Fprint(&src, "}\n\n")
 		}
@@ -321,9 +335,31 @@ func reportCmd(args []string) error {
 			tracePath := filepath.Join(home, "trace.log")
 			os.Remove(tracePath)
 			cmd.Env = []string{"HOME=" + home, "PATH=/usr/bin:/bin", "NO_COLOR=1", "T=" + tracePath}
+			// every other invocation writes to regular files instead of pipes (`spok build > out.log 2> err.log`): what the
+			// streams are connected to is not supposed to matter
 			var so, se bytes.Buffer
-			cmd.Stdout, cmd.Stderr = &so, &se
+			var fso, fse *os.File
+			if (k+ii)%2 == 0 {
+				fso, _ = os.Create(filepath.Join(home, "stdout.log"))
+				fse, _ = os.Create(filepath.Join(home, "stderr.log"))
+			}
+			if fso != nil && fse != nil {
+				cmd.Stdout, cmd.Stderr = fso, fse
+				st.ToFiles++
+			} else {
+				cmd.Stdout, cmd.Stderr = &so, &se
+			}
 			runErr := cmd.Run()
+			if fso != nil && fse != nil {
+				fso.Close()
+				fse.Close()
+				b1, _ := os.ReadFile(filepath.Join(home, "stdout.log"))
+				b2, _ := os.ReadFile(filepath.Join(home, "stderr.log"))
+				so.Write(b1)
+				se.Write(b2)
+				os.Remove(filepath.Join(home, "stdout.log"))
+				os.Remove(filepath.Join(home, "stderr.log"))
+			}
 			exit := 0
 			if runErr != nil {
 				exit = -1
